@@ -412,7 +412,12 @@ fn write_long_bracket(value: &[u8]) -> Option<String> {
     equals.push(b']');
 
     loop {
-        if value.find(&equals).is_none() {
+        // the closing delimiter must not appear in the content, nor be completed
+        // early by the end of the content followed by the delimiter itself
+        let mut content = value.to_vec();
+        content.extend_from_slice(&equals[..equals.len() - 1]);
+
+        if content.find(&equals).is_none() {
             break;
         } else {
             i += 1;
